@@ -270,6 +270,11 @@ def construct(tr, n):
                 return '((%s){0})' % ct.c
             if tr.klass(a0) == ct.elem.klass:
                 return '((%s){1, %s})' % (ct.c, tr.e(a0))
+            if ct.elem.klass == 'str':
+                # tl::expected<std::string, E> from a string literal / string_view: converting constructor of the value
+                v = construct_from(tr, ct.elem, argn, n)
+                if v is not None:
+                    return '((%s){1, %s})' % (ct.c, v)
         return None
     if k in ('ada_string', 'ada_owned_string', 'ada_url_components'):
         if not argn:
@@ -384,6 +389,8 @@ def operator_call(tr, opname, ops, n, callee):
                 return r if opname == 'operator==' else '(!%s)' % r
         return None
     if opname == 'operator<=>':
+        if k0 in ('sv', 'str') or tr.klass(ops[1]) in ('sv', 'str'):
+            return 'sv_compare__sv(%s, %s)' % (as_sv(tr, ops[0]), as_sv(tr, ops[1]))
         return None
     if opname == 'operator[]':
         if k0 == 'sv':
@@ -444,6 +451,9 @@ def operator_call(tr, opname, ops, n, callee):
         if k0 in ('str', 'sv') or tr.klass(ops[1]) in ('str', 'sv'):
             return 'str_concat__sv_sv(%s, %s)' % (as_sv(tr, ops[0]), as_sv(tr, ops[1]))
         return None
+    if opname in ('operator<', 'operator>', 'operator<=', 'operator>=') and 'strong_ordering' in q0:
+        # C++20 rewritten comparison (a <=> b) OP 0
+        return '(%s %s 0)' % (tr.e(ops[0]), opname[len('operator'):])
     if opname in ('operator<', 'operator>', 'operator<=', 'operator>='):
         if k0 in ('sv', 'str'):
             sym = opname[len('operator'):]
